@@ -442,6 +442,9 @@ func (r *Run) Finish() int {
 	for k, v := range r.extra {
 		cov[k] = v
 	}
+	for k, v := range r.childExtra {
+		cov["max_"+k] = v
+	}
 	cov["evaluations"] = atomic.LoadInt64(&r.evals)
 	cov["distinct_nontrivial"] = atomic.LoadInt64(&r.dcount)
 	if atomic.LoadInt32(&r.dcapped) != 0 {
